@@ -278,6 +278,21 @@ def run(ck):
                                                     "budget_s": bud}, bud + 120) for name, js, w, bud in explore_plan]
         outs = list(ex.map(lambda c: run_chunk([batches[i] for i in c], tmo), chunks))
         explored = [f.result() for f in fx]
+    # ---- chained work: done-callbacks that enqueue follow-up jobs (and passive callbacks as the control)
+    cj = [distinct_job(100 + k, rng) for k in range(3)]
+    chained, cerr = core.run_impl(DRIVER, (), {"chained": [{"jobs": cj, "mode": "chain", "workers": 2}, {"jobs": cj, "mode": "passive", "workers": 1},
+                                                         {"jobs": cj[:1], "mode": "chain", "workers": 1}]}, 120)
+    if chained is None:
+        ck.corr_problem("chained-callback driver did not complete", str(cerr)[-1200:])
+    else:
+        for j, r in enumerate(chained["chained"]):
+            if "error" in r:
+                ck.corr_problem("chained-callback scenario %d raised" % j, r["error"])
+                continue
+            for sig, what in r["problems"]:
+                ck.fail_input(sig, what + " (scenario %d: %s)" % (j, ["3 chains, 2 workers", "passive callbacks", "1 chain, 1 worker"][j]),
+                              {"kind": "chained", "scenario": j, "jobs": cj if j < 2 else cj[:1]})
+        ck.notes["chained_callback_scenarios"] = len(chained["chained"])
     results = [None] * len(batches)
     files = None
     for c, (res, err) in zip(chunks, outs):
